@@ -77,10 +77,11 @@ def generate(rng, tier, index):
     sessions = [{"backend": "sim" if rng.random() < 0.12 else "z3"} for _ in range(n_sessions)]
     decls = [[] for _ in sessions]
     ops = []
-    max_ops = rng.randint(4, 14)
-    max_vars = rng.randint(1, 8)
-    cap = 4096
-    budget_hi = rng.choice([4, 8, 12, 18, 25])
+    big = tier == "thorough" and rng.random() < 0.3  # size ramp of the thorough tier
+    max_ops = rng.randint(4, 14) if not big else rng.randint(10, 24)
+    max_vars = rng.randint(1, 8) if not big else rng.randint(4, 11)
+    cap = 4096 if not big else 16384
+    budget_hi = rng.choice([4, 8, 12, 18, 25]) if not big else rng.choice([12, 25, 40, 60])
     solved = [False] * n_sessions
     keys = [set() for _ in range(n_sessions)]
     use_witness = [rng.random() < 0.65 for _ in range(n_sessions)]
@@ -204,7 +205,7 @@ def valid(sc):
                 if k in ("int_var", "int_array") and op["lo"] > op["hi"]:
                     return False
                 decls[s] = decls[s] + decls_after([dict(op, s=0)], 1)[0]
-                if refsem.domain_product(decls[s]) > 30000:
+                if refsem.domain_product(decls[s]) > 100000:
                     return False
             elif k == "ensure":
                 for c in op["cs"]:
